@@ -363,13 +363,18 @@ pub fn run_case(plan: Plan, opts: &SimOpts) -> CaseOut {
     out.viol = st
         .viol
         .drain(..)
-        .map(|msg| match msg.strip_prefix("[C02] ") {
-            // liveness of the protocol core under faults: another property's subject, shown as a NOTE
-            Some(m) => Violation { prop: "C02", msg: m.to_string() },
-            None => Violation { prop: "C18", msg },
+        .map(|msg| {
+            // liveness / limit accounting of the protocol core: another property's subject, shown as a NOTE
+            if let Some(m) = msg.strip_prefix("[C02] ") {
+                Violation { prop: "C02", msg: m.to_string() }
+            } else if let Some(m) = msg.strip_prefix("[C05] ") {
+                Violation { prop: "C05", msg: m.to_string() }
+            } else {
+                Violation { prop: "C18", msg }
+            }
         })
         .collect();
-    if out.viol.iter().any(|v| v.prop == "C02") && inconclusive.is_none() {
+    if out.viol.iter().any(|v| v.prop != "C18") && inconclusive.is_none() {
         inconclusive = Some("connection lost without a close (protocol-level liveness, not judged here)".into());
     }
     if !st.harness_err.is_empty() {
